@@ -172,8 +172,10 @@ def adjust_key_parity_contract(variant='call'):
         keys += [k1 + k1 + k3, k1 + k2 + k2, k1 + k2 + k1, k1 + k2 + k3, k1 + bytes(x ^ 1 for x in k1), k1 + k2 + bytes(x ^ 1 for x in k2)]
         params = {'key_in': '|'.join(lit(k) for k in keys)}
     extra = {}
-    if variant in ('tdes', 'all_bytes'):
-        # the same statement byte by byte
+    if variant == 'all_bytes':
+        # the same statement byte by byte, on the ground instances only: for symbolic keys these two are consequences of `value`
+        # (des_parity is the per-byte fold) that cost z3 minutes and flip with the solver seed (seed 1: time-out), so they are not
+        # restated there; nothing is lost, `value` is the stronger clause
         extra = {'parity_first': 'result[0] == spec.modes.odd_parity_fold(key_in[0])',
                  'parity_last': 'result[len(key_in) - 1] == spec.modes.odd_parity_fold(key_in[len(key_in) - 1])'}
     return Contract(AKP, params=params, requires=requires,
